@@ -115,7 +115,7 @@ def check(cx):
         for j in range(i + 1, len(chan_f)):
             a, b = chan_f[i], chan_f[j]
             ua, ub = getattr(a[0], 'ev', a[0]), getattr(b[0], 'ev', b[0])
-            if ua is ub and _iterates_set(prog, ua):
+            if ua is ub and _iterates_set(prog, ua, w):
                 r4.instance('%s vs %s: one fan-out over a de-duplicating set' % (a[3] or 'members', b[3] or 'members'))
                 continue
             fa, _ = M.abstract(a[0].pc)
@@ -267,12 +267,28 @@ def check_source_string(cx, rule):
             rule.violation('User::new|source', 'a new user\'s source string is not its connection\'s source string', loc=fnew, config=cfg)
 
 
-def _iterates_set(prog, e):
-    """does the innermost loop of this send iterate a set-typed collection?"""
+def _is_set_ty(ty):
+    return 'HashSet<' in ty or 'BTreeSet<' in ty or 'hash::set' in ty or 'hash_set' in ty
+
+
+def _iterates_set(prog, e, w=None):
+    """does the innermost loop of this send iterate a set-typed (de-duplicating) local collection?  The type is taken from
+       the loop expression or, when the loop sits in a helper that receives the collection as a generic iterator, from the
+       creation of the local collection itself"""
     for (kind, hid, iv, node) in reversed(e.loops):
         if iv is not None and iv[0] == 'local':
             ty = prog.ty(node['iter']) if node.get('k') == 'For' else (prog.ty(node['args'][0]) if node.get('args') else '')
-            return 'HashSet<' in ty or 'BTreeSet<' in ty or 'hash::set' in ty or 'hash_set' in ty
+            if _is_set_ty(ty):
+                return True
+            if w is not None:
+                for b in w.events:
+                    if b.kind == 'bind' and b.data.get('var') is not None and iv[2] == b.data['var'] or \
+                            (b.kind == 'bind' and b.data.get('name') == iv[1] and isinstance(b.data.get('value'), tuple)
+                             and b.data['value'][:1] == ('fresh',)):
+                        v = b.data.get('value')
+                        if isinstance(v, tuple) and v[:1] == ('fresh',) and _is_set_ty(str(v[1])):
+                            return True
+            return False
     return False
 
 
